@@ -443,6 +443,16 @@ def run_check(prop, tier, seed):
         lean_problem = (lean_problem or "") + "\nforbidden tokens:\n" + "\n".join(forb)
     if bad:
         lean_problem = (lean_problem or "") + "\naxiom audit:\n" + json.dumps(bad, indent=1)
+    # 2b. thorough tier: independent re-check of the compiled proofs with leanchecker (one module per call)
+    rechecked = []
+    if ok and tier == "thorough" and not lean_problem:
+        for f in spec["lean_files"]:
+            mod = f[:-5].replace("/", ".")
+            rc, out = sh(["lake", "env", "leanchecker", mod], cwd=LEAN, timeout=3000)
+            if rc != 0:
+                lean_problem = (lean_problem or "") + "\nleanchecker %s failed:\n%s" % (mod, out[-2000:])
+            else:
+                rechecked.append(mod)
     # 3. property-specific extra obligations (e.g. regenerated bodies)
     extra = {}
     if spec.get("pre") is not None and ok:
@@ -519,7 +529,7 @@ def run_check(prop, tier, seed):
                 prop, ", ".join(spec["lean_files"])),
             trusted_base=spec.get("trusted_base", []) + COMMON_TRUSTED,
             theorems=names, axioms_used=sorted(set(a for n in names for a in axioms.get(n, []))),
-            extra_obligations=extra.get("detail"),
+            extra_obligations=extra.get("detail"), leanchecker_rechecked=rechecked,
             traces_validated_against_impl=sum(c["accepted"] for c in stats["components"].values()),
             evaluations=total_runs, events=sum(c["events"] for c in stats["components"].values()),
             distinct_nontrivial=sum(c["distinct_traces"] for c in stats["components"].values()),
